@@ -1,6 +1,15 @@
 """C13 -- Gas.tla: exhaustive edge dump replayed on revm_interpreter::Gas, two numeric domains."""
 import vf
 
+READY = True
+SERVES = {
+    "C13": dict(
+        technique="TLA+ spec Gas.tla model-checked by TLC; every (state, operation) edge of the model replayed on revm_interpreter::Gas and the projected meter compared (spec->impl conformance)",
+        level="TLC enumerates every reachable state of the gas-meter specification for two numeric domains (small numbers; numbers adjacent to u64::MAX / i64::MAX through an order- and difference-preserving embedding), checks the property's clauses as invariants/action properties of the specification, and prints every edge with the expected successor; the harness applies each edge's history and operation to the real Gas value and compares limit/remaining/spent/refunded and the charge result. Exhaustive for the bounded domain, so any change to the meter that alters one of these observables on a short history is detected.",
+        note="Trusted: Gas.tla as the statement of the property; the adapter harness/src/bin/gas.rs. Assumes erase_cost is called with at most the amount charged and the final refund is computed from a non-negative recorded refund (the property's 'consistent with frame accounting'). Values between the neighbourhoods of 0 and of the type maximum are not explored.",
+        ref="DESIGN.md section 3, C13"),
+}
+
 OPS = ["new", "new_spent", "record_cost", "erase_cost", "spend_all", "set_spent", "record_refund",
        "set_refund", "set_final_refund"]
 INV = ["NeverNegative", "SpentIsLimitMinusRemaining"]
@@ -21,7 +30,7 @@ def run(ctx, pid):
                      Refunds="-3..6", Big=0, MaxHist=6)
         big = dict(Limits=vf.tla_set([0, 1, 2, 998, 999, 1000]), Costs=vf.tla_set([0, 1, 2, 3, 997, 998, 999, 1000]),
                    Refunds=vf.tla_set([-2, -1, 0, 1, 2, 998, 999, 1000]), Big=1000, MaxHist=5)
-    binary = vf.cargo_build()
+    binary = vf.cargo_build("gas")
     for name, consts in (("gas_small", small), ("gas_big", big)):
         run_ = vf.tlc(ctx, "Gas", vf.cfg(consts, invariants=INV, properties=PROPS), name=name, workers=8)
         vf.replay_edges(ctx, res, run_, "gas", ["big=%d" % consts["Big"]], name=name, binary=binary, expect_ops=OPS)
